@@ -166,7 +166,7 @@ instances were created; in particular no two instances share an id, and `Compone
 (`Djc.Proofs.Tree.GoodR.id`). -/
 theorem component_tree_ids_distinct (env : Env) (hlib : Djc.Proofs.Tree.GoodLib env) (fuel : Nat)
     (name : Str) (kwargs : List (Str × Expr)) (only dyn : Bool) (body : List Node) (ctx : Ctx) (w w' : World) (toks : List Tok)
-    (hd : isDynName name = false) (hb : Djc.Proofs.Tree.fbody body = true) (hc : Djc.Proofs.Plain.ctxFree ctx = true)
+    (hd : isDynName name = false) (hb : Djc.Proofs.Tree.gbody body = true) (hc : Djc.Proofs.Plain.ctxFree ctx = true)
     (hw : Djc.Proofs.Tree.WInv w)
     (h : (renderCompTag env fuel name kwargs only dyn body ctx).run.run w = (.ok toks, w')) :
     ∃ evs, w'.events = w.events ++ evs ∧
@@ -206,7 +206,7 @@ attributes the parent handed down plus its own id (`Djc.Proofs.Stitch.Exp`).  Wi
 does; with `root_placeholder_tagged`: a component that is itself a root of its parent inherits the parent's ids. -/
 theorem page_is_expansion_of_root_instance (env : Env) (hlib : Djc.Proofs.Tree.GoodLib env) (fuel : Nat)
     (name : Str) (kwargs : List (Str × Expr)) (only dyn : Bool) (body : List Node) (ctx : Ctx) (w w' : World) (toks : List Tok)
-    (hd : isDynName name = false) (hb : Djc.Proofs.Tree.fbody body = true) (hc : Djc.Proofs.Plain.ctxFree ctx = true)
+    (hd : isDynName name = false) (hb : Djc.Proofs.Tree.gbody body = true) (hc : Djc.Proofs.Plain.ctxFree ctx = true)
     (hw : Djc.Proofs.Tree.WInv w)
     (hext : isExtracting ctx = false)
     (hpar : Djc.Proofs.Tree.parentOf (if only || env.isolated then isolatedCopy ctx else ctx) = none)
